@@ -89,6 +89,53 @@ def rule_schema(ck):
         if role != ROLE_OF_KEY[key]:
             probs.append('key %r takes the %s column `%s` (expected %s)' % (key, role, u(cols_used[0])[:50], ROLE_OF_KEY[key]))
     (o.fail('; '.join(probs)) if probs else o.ok('row[k] <-> accessor roles %s' % zroles))
+    # the numbers reach the csv writer as they are stored (it writes the shortest text that reads back as the same double) or in a
+    # text form that identifies a double: 17 significant digits
+    import re as _re
+    for key in ('lon', 'lat', 'mag', 'depth'):
+        val = ex.expand(items[key])
+        oo = ck.ob('C14-D1.digits', f, items[key], rows[0])
+        e = val
+        lossy = None
+        while True:
+            if isinstance(e, ast.Call) and (call_name(e) or '') in ('builtins.float', 'builtins.repr', 'builtins.str', 'numpy.float64', 'float', 'repr', 'str') and len(e.args) == 1:
+                e = e.args[0]
+                continue
+            spec = None
+            if isinstance(e, ast.Call) and (call_name(e) or '') in ('builtins.format', 'format') and len(e.args) == 2 and isinstance(const_value(e.args[1]), str):
+                spec, inner = const_value(e.args[1]), e.args[0]
+            elif isinstance(e, ast.BinOp) and isinstance(e.op, ast.Mod) and isinstance(const_value(e.left), str):
+                spec, inner = const_value(e.left).lstrip('%'), e.right
+            elif isinstance(e, ast.Call) and isinstance(e.func, ast.Attribute) and e.func.attr == 'format' and isinstance(const_value(e.func.value), str) and len(e.args) == 1:
+                m_ = _re.search(r'\{[^}:]*:([^}]*)\}', const_value(e.func.value))
+                spec, inner = (m_.group(1) if m_ else ''), e.args[0]
+            elif isinstance(e, ast.JoinedStr) and len(e.values) == 1 and isinstance(e.values[0], ast.FormattedValue):
+                fs = e.values[0].format_spec
+                spec = ''.join(str(const_value(v_)) for v_ in fs.values) if fs is not None else ''
+                inner = e.values[0].value
+            elif isinstance(e, ast.Call) and (call_name(e) or '') in ('builtins.round', 'numpy.round', 'numpy.around', 'round'):
+                lossy = 'rounded by `%s`' % u(e)[:50]
+                break
+            if spec is None:
+                break
+            m_ = _re.search(r'\.(\d+)([eEfFgG])', spec)
+            if m_:
+                digits, kind = int(m_.group(1)), m_.group(2).lower()
+                sig = digits if kind == 'g' else (digits + 1 if kind == 'e' else None)
+                if sig is None or sig < 17:
+                    lossy = 'written with the format %r' % spec
+                    break
+            elif spec not in ('', 'r', 's'):
+                lossy = 'written with the format %r' % spec
+                break
+            e = inner
+        if lossy:
+            oo.fail('%s is %s: fewer than 17 significant digits do not identify a double (0.30000000000000004 is read back as 0.3, '
+                    '179.99999999999997 as 180.0), so the value loaded from the file differs from the one written' % (key, lossy))
+        elif is_marker(e, '__elem__') or (isinstance(e, ast.Subscript) and is_marker(e.value, '__elem__')):
+            oo.ok('the stored number itself')
+        else:
+            oo.unknown('cannot tell how `%s` is turned into text' % u(items[key])[:60])
     # reader side: column numbers (shared with C19-D2)
     from . import c19
     g = P.func('csep.utils.readers.csep_ascii')
